@@ -81,6 +81,9 @@ Theorem C09_validation_stage_never_panics : forall cfg now,
   (forall r, exists v, G_Validate cfg now r = PVal v) /\
   (forall a, exists v, G_VerifyAssertionConditions cfg now a = PVal v) /\
   (forall r, exists v, G_ValidateDecodedLogoutResponse cfg now r = PVal v) /\
-  (forall r, exists v, G_ValidateDecodedLogoutRequest cfg now r = PVal v).
+  (forall r, exists v, G_ValidateDecodedLogoutRequest cfg now r = PVal v) /\
+  (forall enc r, exists v, G_RetrieveAssertionInfo cfg now enc (res_some r) = PVal v) /\
+  (forall m k, (exists v, G_Values_Get m now k = PVal v) /\ (exists v, G_Values_GetSize m now k = PVal v) /\
+               (exists v, G_Values_GetAll m now k = PVal v)).
 Proof. exact validation_stage_never_panics. Qed.
 Print Assumptions C09_validation_stage_never_panics.
